@@ -214,6 +214,7 @@ func explore(P *Program, fn *ssa.Function, opts ExploreOpts) *HarnessResult {
 	inflight := 0
 	cond := sync.NewCond(&mu)
 	stop := false
+	nfatal := 0
 	pathSeq := 0
 
 	workerFn := func(wi int) {
@@ -350,9 +351,17 @@ func explore(P *Program, fn *ssa.Function, opts ExploreOpts) *HarnessResult {
 			if wit != nil {
 				res.Witnesses = append(res.Witnesses, ps)
 			}
-			if fatal != "" && res.Err == "" {
-				res.Err = fatal
-				stop = true
+			if fatal != "" {
+				// an unsupported construct ends this path only: the other paths are still explored, so
+				// that a violation on a path the engine can follow is not hidden behind an inconclusive
+				// one (the harness stays inconclusive either way); give up after 50 such paths
+				if res.Err == "" {
+					res.Err = fatal
+				}
+				nfatal++
+				if nfatal > 50 {
+					stop = true
+				}
 			}
 			if opts.MaxPaths > 0 && res.Paths >= opts.MaxPaths && (len(work)+len(e.pending)) > 0 {
 				res.MaxPaths = true
